@@ -62,6 +62,10 @@ func fatal(format string, a ...any) int {
 }
 
 func profile() *sim.Profile {
+	loadSites()
+	if *prop == "C11" {
+		return &sim.Profile{Prop: "C11"}
+	}
 	p := sim.ProfileFor(*prop)
 	if p == nil {
 		fmt.Fprintf(os.Stderr, "simrun: no step-atomic check for property %q\n", *prop)
@@ -70,9 +74,75 @@ func profile() *sim.Profile {
 	return p
 }
 
+func loadSites() {
+	if *sites == "" {
+		return
+	}
+	b, err := os.ReadFile(*sites)
+	if err != nil {
+		return
+	}
+	var t struct {
+		Sites []struct {
+			ID   uint32 `json:"id"`
+			File string `json:"file"`
+			Line int    `json:"line"`
+			Func string `json:"func"`
+			Det  string `json:"detail"`
+		} `json:"sites"`
+	}
+	if json.Unmarshal(b, &t) != nil {
+		return
+	}
+	sim.SiteNames = map[uint32]string{}
+	for _, s := range t.Sites {
+		sim.SiteNames[s.ID] = fmt.Sprintf("%s:%d (%s %s)", s.File, s.Line, s.Func, s.Det)
+	}
+}
+
+// generate runs one seeded run of the property: step-atomic or concurrent.
+func generate(p *sim.Profile, rs uint64) (*sim.Plan, *sim.RunResult, bool, []string, string) {
+	if p.Prop == "C11" {
+		plan, scen := sim.ConcPlanFor(rs)
+		cr := sim.ExecConc(plan)
+		cr.RunResult.Probes = map[string]int{"scenario-" + scen: 1, "porcupine-" + cr.Porcupine: 1, "ops": len(cr.History)}
+		cr.RunResult.Faults = map[string]int{"context-switches": len(cr.Sched.Decisions), "sched-mode-" + fmt.Sprint(plan.Sched.Mode): 1}
+		cr.RunResult.States = map[string]bool{}
+		return plan, &cr.RunResult, false, sim.ConcTrace(plan, cr), fmt.Sprintf("%x", cr.Sched.SwitchSig)
+	}
+	plan, res, g := sim.Generate(p, rs)
+	return plan, res, g.Cfg.FaultFree, nil, ""
+}
+
+func execPlan(p *sim.Plan) (*sim.RunResult, []string, string) {
+	if len(p.Tasks) > 0 {
+		cr := sim.ExecConc(p)
+		return &cr.RunResult, sim.ConcTrace(p, cr), ""
+	}
+	res, eng := sim.ExecPlan(p)
+	return res, sim.Trace(res), eng.Log()
+}
+
+func minimise(p *sim.Plan, rule string) (*sim.Plan, int) {
+	if len(p.Tasks) > 0 {
+		return sim.MinimiseConc(p, rule, 300)
+	}
+	return sim.Minimise(p, rule, 400)
+}
+
 func doOne() int {
 	p := profile()
 	loadKnown(*known, *prop)
+	if p.Prop == "C11" {
+		plan, res, _, tr, _ := generate(p, *one)
+		b, _ := json.Marshal(plan.Sched)
+		fmt.Printf("run seed %d sched %s\n", *one, b)
+		for _, l := range tr {
+			fmt.Println(l)
+		}
+		fmt.Printf("fails=%v quiet=%q loghash=%s\n", res.Fails, res.Quiet, res.LogHash)
+		return 0
+	}
 	plan, res, g := sim.Generate(p, *one)
 	b, _ := json.Marshal(g.Cfg)
 	fmt.Printf("run seed %d cfg %s\nworld %+v\n", *one, b, *plan.World)
@@ -132,7 +202,7 @@ func doDet() int {
 	loadKnown(*known, *prop)
 	for r := 0; r < *detN; r++ {
 		rs := sim.Mix(*seed, 0, uint64(r))
-		_, res, _ := sim.Generate(p, rs)
+		_, res, _, _, _ := generate(p, rs)
 		fmt.Printf("%d %s %d %v %q %q\n", rs, res.LogHash, res.NSteps, sim.FailRules(res), res.OtherRule, res.Quiet)
 	}
 	return 0
@@ -143,11 +213,12 @@ func doReplay() int {
 	if err != nil {
 		return fatal("%v", err)
 	}
-	res, eng := sim.ExecPlan(&rp.Plan)
+	profile()
+	res, tr, logText := execPlan(&rp.Plan)
 	if *dumpLog {
-		fmt.Print(eng.Log())
+		fmt.Print(logText)
 	}
-	for _, l := range sim.Trace(res) {
+	for _, l := range tr {
 		fmt.Println(l)
 	}
 	want := strings.Split(rp.Rule, ",")
@@ -212,6 +283,7 @@ type summary struct {
 	MapCalls     uint64            `json:"map_calls"`
 	MapPermuted  uint64            `json:"map_permuted"`
 	Uncontrolled uint64            `json:"uncontrolled_map_sites"`
+	KnownMet     int               `json:"violations_met"`
 	Recheck      int               `json:"determinism_rechecks"`
 	RecheckBad   int               `json:"determinism_mismatches"`
 }
@@ -231,12 +303,15 @@ func doWorker() int {
 			break
 		}
 		rs := sim.Mix(*seed, uint64(*worker), uint64(r))
-		plan, res, g := sim.Generate(p, rs)
+		plan, res, faultFree, _, ilv := generate(p, rs)
 		s.Runs++
 		s.Steps += res.NSteps
 		s.ObsCalls += res.ObsCalls
-		if g.Cfg.FaultFree {
+		if faultFree {
 			s.FaultFree++
+		}
+		if ilv != "" {
+			stateHashes[sim.Hash64(ilv)] = true
 		}
 		for k, v := range res.Probes {
 			s.Probes[k] += v
@@ -255,45 +330,53 @@ func doWorker() int {
 		}
 		if sim.Nontrivial(*prop, res) {
 			b, _ := json.Marshal(plan.Cmds)
-			h := sim.Hash64(string(b))
+			b2, _ := json.Marshal(plan.Tasks)
+			h := sim.Hash64(string(b) + string(b2) + ilv)
 			if !planHashes[h] {
 				planHashes[h] = true
 				s.Nontrivial++
 			}
 			if len(s.Samples) < 2 && len(plan.Cmds) <= 14 {
-				tr, _ := json.Marshal(sim.Trace(res))
+				_, trc, _ := execPlan(plan)
+				tr, _ := json.Marshal(trc)
 				s.Samples = append(s.Samples, tr)
 			}
 		}
 		// continuing determinism guard: re-execute 1% of the runs as plans
 		if r%100 == 7 && len(res.Fails) == 0 {
 			s.Recheck++
-			r2, _ := sim.ExecPlan(plan)
+			r2, _, _ := execPlan(plan)
 			if r2.LogHash != res.LogHash {
 				s.RecheckBad++
 			}
 		}
 		if len(res.Fails) > 0 {
 			rule := res.Fails[0].Rule
-			minp, runs := sim.Minimise(plan, rule, 400)
+			minp, runs := minimise(plan, rule)
 			s.MinimiseRun += runs
-			mres, _ := sim.ExecPlan(minp)
+			mres, mtrace, _ := execPlan(minp)
 			if len(mres.Fails) == 0 {
 				mres, minp = res, plan
+				_, mtrace, _ = execPlan(plan)
 			}
 			kn := kf.classify(minp, mres)
-			path, err := sim.WriteReplay(*replays, minp, mres, *tier, len(plan.Cmds), kn, *worker)
-			if err != nil {
-				return fatal("%v", err)
-			}
-			s.Violations = append(s.Violations, violation{Seed: rs, Rules: sim.FailRules(mres), Replay: path, Msg: mres.Fails[0].Msg, From: len(plan.Cmds), To: len(minp.Cmds), Known: kn})
-			unknown := 0
+			unknown, sameKnown := 0, 0
 			for _, v := range s.Violations {
 				if v.Known == "" {
 					unknown++
+				} else if v.Known == kn {
+					sameKnown++
 				}
 			}
-			if unknown >= 2 || len(s.Violations) >= 6 {
+			s.KnownMet++
+			if kn == "" || sameKnown < 1 {
+				path, err := sim.WriteReplayTrace(*replays, minp, mres, mtrace, *tier, len(plan.Cmds)+countTasks(plan), kn, *worker)
+				if err != nil {
+					return fatal("%v", err)
+				}
+				s.Violations = append(s.Violations, violation{Seed: rs, Rules: sim.FailRules(mres), Replay: path, Msg: mres.Fails[0].Msg, From: len(plan.Cmds), To: len(minp.Cmds), Known: kn})
+			}
+			if kn == "" && unknown+1 >= 2 {
 				break
 			}
 		}
@@ -308,6 +391,14 @@ func doWorker() int {
 	writeHashes(filepath.Join(*outDir, fmt.Sprintf("w%d.plans", *worker)), planHashes)
 	writeHashes(filepath.Join(*outDir, fmt.Sprintf("w%d.states", *worker)), stateHashes)
 	return 0
+}
+
+func countTasks(p *sim.Plan) int {
+	n := 0
+	for _, t := range p.Tasks {
+		n += len(t)
+	}
+	return n
 }
 
 func writeHashes(path string, m map[uint64]bool) {
@@ -344,7 +435,7 @@ func replayWitnesses() (confirmed []string) {
 			fmt.Printf("note: witness %s of a listed finding cannot be read: %v\n", k.witness, err)
 			continue
 		}
-		res, _ := sim.ExecPlan(&rp.Plan)
+		res, _, _ := execPlan(&rp.Plan)
 		still := false
 		for _, f := range res.Fails {
 			still = still || f.Rule == k.rule
@@ -361,6 +452,9 @@ func replayWitnesses() (confirmed []string) {
 
 func doLeader() int {
 	profile()
+	if *prop == "C11" {
+		sim.RuleTextC11()
+	}
 	start := time.Now()
 	witnessed := replayWitnesses()
 	dir, err := os.MkdirTemp("", "simrun-")
@@ -377,7 +471,7 @@ func doLeader() int {
 	var procs []proc
 	for i := 0; i < *workers; i++ {
 		c := exec.Command(self, "-prop", *prop, "-tier", *tier, "-seed", fmt.Sprint(*seed), "-worker", fmt.Sprint(i), "-workdir", dir,
-			"-budget", budget.String(), "-replays", *replays, "-known", *known, "-runs", fmt.Sprint(*maxRuns))
+			"-budget", budget.String(), "-replays", *replays, "-known", *known, "-runs", fmt.Sprint(*maxRuns), "-sites", *sites)
 		sb := &strings.Builder{}
 		c.Stdout, c.Stderr = sb, sb
 		if err := c.Start(); err != nil {
